@@ -39,8 +39,8 @@ type env struct {
 	owner world.Actor // has a delegation (for transferFromShares)
 	m     world.Actor
 	val   sdk.ValAddress
-	claim uint64 // pending executable claim nonce
-	late  uint64 // parked result claim of an outgoing bridge call that was already refunded for timeout: executing it fails in the keeper after the parked claim was consumed
+	claim uint64     // pending executable claim nonce
+	late  uint64     // parked result claim of an outgoing bridge call that was already refunded for timeout: executing it fails in the keeper after the parked claim was consumed
 	usdt  scen.Token // a module-owned pair; the user holds 50 as ERC-20
 }
 
@@ -153,6 +153,118 @@ func fundERC20(e *env, ctx sdk.Context, self common.Address) {
 	}
 }
 
+// pairMethods: the methods of the pair enumeration - every ordinary target plus two whose caller is its own
+// counterpart (owner = spender = the calling contract), so that a grant made in a dropped frame and a move that
+// needs that grant meet in one transaction.
+func pairMethods() []method {
+	var out []method
+	for _, m := range methods() {
+		if failing[m.name] == "" {
+			out = append(out, m)
+		}
+	}
+	delegate := func(e *env, _ common.Address) []call { return []call{st("delegateV2", e.val.String(), e18(10))} }
+	none := func(*env, common.Address) []call { return nil }
+	out = append(out,
+		method{"approveShares(to-itself)", none, func(e *env, self common.Address) call { return st("approveShares", e.val.String(), self, e18(5)) }, nil},
+		method{"transferFromShares(from-itself)", delegate, func(e *env, self common.Address) call {
+			return st("transferFromShares", e.val.String(), self, e.m.Hex(), e18(5))
+		}, nil},
+	)
+	return out
+}
+
+// buildPair deploys: a library L = [a's preparation ; a's target (if withA) ; REVERT] and a program
+// P = [b's preparation ; DELEGATECALL L (result recorded) ; b's target (result ignored) ; marker]. L runs in P's context,
+// so the precompile sees P as the caller of both targets; the frame that held a is reverted and P carries on.
+func buildPair(e *env, ctx sdk.Context, a, b method, withA bool) (entry common.Address) {
+	w := e.w
+	deployer := e.user
+	lib := crypto_CreateAddress(deployer.Hex(), w.App.EvmKeeper.GetNonce(ctx, deployer.Hex()))
+	self := crypto_CreateAddress(deployer.Hex(), w.App.EvmKeeper.GetNonce(ctx, deployer.Hex())+1)
+	var lp evmasm.Program
+	for _, c := range a.prep(e, self) {
+		lp.Actions = append(lp.Actions, act(c, evmasm.Require, 0))
+	}
+	if withA {
+		lp.Actions = append(lp.Actions, act(a.tgt(e, self), evmasm.Require, 1_500_000)) // capped: a failing precompile call burns what it was given
+	}
+	lp.Revert = true
+	if got := w.Deploy(ctx, deployer, lp.InitCode()); got != lib {
+		panic("c09: library address prediction failed")
+	}
+	var pp evmasm.Program
+	for _, c := range b.prep(e, self) {
+		pp.Actions = append(pp.Actions, act(c, evmasm.Require, 0))
+	}
+	pp.Actions = append(pp.Actions, evmasm.Action{Call: &evmasm.CallAction{Kind: evmasm.DELEGATECALL, To: lib, After: evmasm.Record, RecordSlot: 3, Gas: 6_000_000}})
+	bt := act(b.tgt(e, self), evmasm.Record, 1_500_000)
+	pp.Actions = append(pp.Actions, bt, evmasm.Mark(9, 1))
+	if got := w.Deploy(ctx, deployer, pp.InitCode()); got != self {
+		panic("c09: program address prediction failed")
+	}
+	scen.Fund(w, ctx, sdk.AccAddress(self.Bytes()), sdk.NewCoins(world.FXCoin(1000)))
+	for _, m := range []method{a, b} {
+		if m.outside != nil {
+			m.outside(e, ctx, self)
+		}
+	}
+	return self
+}
+
+// pairs: for every ordered pair (a, b) the transaction "a in a frame that is reverted, then b" must leave the native
+// stores exactly as the transaction "nothing in the reverted frame, then b" does.
+func pairs(shard, shards int, deadline time.Time) *explore.Result {
+	start := time.Now()
+	res := &explore.Result{Spec: "c09/pairs", Outcomes: map[string]int{}, Counters: map[string]int{}, ViolationCounts: map[string]int{}, Exhaustive: true, DeterminismOK: true, Extra: map[string]float64{}}
+	e := setup()
+	w := e.w
+	ms := pairMethods()
+	n := 0
+	for _, a := range ms {
+		for _, b := range ms {
+			n++
+			if n%shards != shard {
+				continue
+			}
+			name := "dropped " + a.name + " then " + b.name
+			run := func(withA bool) (map[string][]byte, world.EthResult, uint64, uint64) {
+				ctx := world.Branch(e.ctx)
+				entry := buildPair(e, ctx, a, b, withA)
+				r := w.EthTx(ctx, e.user, &entry, nil, nil, 20_000_000)
+				return native(w.Dump(ctx)), r, w.Slot(ctx, entry, 3).Big().Uint64(), w.Slot(ctx, entry, 2).Big().Uint64()
+			}
+			with, rw, droppedOK, bWith := run(true)
+			without, ro, _, bWithout := run(false)
+			res.Transitions += 2
+			res.Extra["evaluations"] += 2
+			if !rw.Success() || !ro.Success() {
+				res.Violations = append(res.Violations, explore.Violation{Oracle: "harness", Signature: "C09/harness/pair-transaction-failed/" + name, Detail: fmt.Sprintf("%s / %s", rw, ro), Path: []string{name}})
+				continue
+			}
+			res.Outcomes[fmt.Sprintf("pair/second-call-succeeds=%v", bWith == 1)]++
+			if droppedOK != 0 {
+				res.Violations = append(res.Violations, explore.Violation{Oracle: "harness", Signature: "C09/harness/dropped-frame-reported-success/" + name, Detail: "the reverting library call returned success", Path: []string{name}})
+				continue
+			}
+			if d := world.DiffDumps(without, with); len(d) > 0 || bWith != bWithout {
+				sig := fmt.Sprintf("C09/dropped-call-influences-a-later-call/%s/%s", a.name, b.name)
+				res.ViolationCounts[sig]++
+				res.Violations = append(res.Violations, explore.Violation{Oracle: "dropped-frame-leaves-no-trace-for-later-calls", Signature: sig,
+					Detail: fmt.Sprintf("%s: with %s executed in a frame that was reverted, the later %s answered %d (without it: %d) and the native stores differ: %v", name, a.name, b.name, bWith, bWithout, d[:min(4, len(d))]), Path: []string{name}})
+			}
+			res.Counters["pairs"]++
+			if len(res.Samples) < 3 {
+				res.Samples = append(res.Samples, []string{name, fmt.Sprintf("second call answered %d in both transactions", bWith)})
+			}
+		}
+	}
+	res.States = res.Counters["pairs"]
+	res.Extra["distinct_nontrivial"] = float64(res.Counters["pairs"])
+	res.WallS = time.Since(start).Seconds()
+	return res
+}
+
 func methods() []method {
 	var target [32]byte
 	copy(target[:], "eth")
@@ -189,7 +301,9 @@ func methods() []method {
 		{"bridgeCall", none, func(e *env, self common.Address) call {
 			return cc(big.NewInt(2), "bridgeCall", "eth", self, []common.Address{}, []*big.Int{}, common.HexToAddress(scen.ExtAddr("eth", "callee")), []byte{1}, big.NewInt(0), []byte{})
 		}, nil},
-		{"executeClaim", none, func(e *env, _ common.Address) call { return cc(nil, "executeClaim", "eth", new(big.Int).SetUint64(e.claim)) }, nil},
+		{"executeClaim", none, func(e *env, _ common.Address) call {
+			return cc(nil, "executeClaim", "eth", new(big.Int).SetUint64(e.claim))
+		}, nil},
 		// the same methods with a bridged ERC-20 instead of the native coin: no value transfer precedes the native action
 		// in the calling frame, the token is pulled with transferFrom
 		{"crossChain(erc20)", approve(3), func(e *env, _ common.Address) call {
@@ -528,12 +642,15 @@ func min(a, b int) int {
 
 func init() {
 	registry.Register(&registry.Check{
-		ID:    "C09",
-		Level: "fault_enumeration",
-		Rule:  "12 state-changing precompile methods x 7 call-tree shapes (direct EOA call; wrapper; wrapper that reverts afterwards; wrapper that catches a failing call and continues; second call fails; inner frame reverts under a surviving outer frame; inner frame kept), each traced once with ample gas and then re-run at every gas threshold of the trace (before/after every opcode, a 2000-gas grid inside native sections, the intrinsic-gas boundary); oracle on the full store dump: rejected tx changes nothing, failed tx leaves no native store change and no log, successful tx equals the ample-gas reference, and a reverted/caught frame leaves the same native stores as the program without that call. distinct_nontrivial = distinct (method, shape, outcome-count) classes",
+		ID:          "C09",
+		Level:       "fault_enumeration",
+		Rule:        "12 state-changing precompile methods x 7 call-tree shapes (direct EOA call; wrapper; wrapper that reverts afterwards; wrapper that catches a failing call and continues; second call fails; inner frame reverts under a surviving outer frame; inner frame kept), each traced once with ample gas and then re-run at every gas threshold of the trace (before/after every opcode, a 2000-gas grid inside native sections, the intrinsic-gas boundary); oracle on the full store dump: rejected tx changes nothing, failed tx leaves no native store change and no log, successful tx equals the ample-gas reference, and a reverted/caught frame leaves the same native stores as the program without that call. distinct_nontrivial = distinct (method, shape, outcome-count) classes. Pair job: for every ordered pair (a, b) of methods, a transaction that executes a inside a delegate-called frame which reverts and then calls b from the same contract must leave the native stores as the transaction without a does",
 		Assumptions: []string{"programs are hand-assembled straight-line contracts; precompile calls use FX as the bridged token (native value path)", "fee/nonce/receipt keys (evm, acc, feemarket stores) are not effects of the call"},
 		Jobs: func(tier string) []registry.Job {
-			return []registry.Job{{Name: "methods-x-shapes-x-gas", Custom: run(tier == "thorough"), Shards: 12}}
+			return []registry.Job{
+				{Name: "methods-x-shapes-x-gas", Custom: run(tier == "thorough"), Shards: 12},
+				{Name: "dropped-call-then-second-call", Custom: pairs, Shards: 4},
+			}
 		},
 	})
 }
